@@ -9,7 +9,8 @@ from vlib.runner import Batch, run_harness
 
 ID = "C06"
 LEAN_PROPS = [f"FcpptProofs.Props.C06.Trunc_{t}" for t in ("u8", "u16", "u32", "u64", "i8", "i16", "i32", "i64")] + [
-    "FcpptProofs.Props.C06.Basic", "FcpptProofs.Props.C06.Arith", "FcpptProofs.Props.C06.Log2", "FcpptProofs.Props.C06.Pow", "FcpptProofs.Props.C06.NextPow"]
+    "FcpptProofs.Props.C06.Basic", "FcpptProofs.Props.C06.Arith", "FcpptProofs.Props.C06.Log2", "FcpptProofs.Props.C06.Pow", "FcpptProofs.Props.C06.NextPow",
+    "FcpptProofs.Props.C06.Casts", "FcpptProofs.Props.C06.Div2", "FcpptProofs.Props.C06.CeilNarrow", "FcpptProofs.Props.C06.Interval", "FcpptProofs.Props.C06.Masks"]
 LEAN_EXTRA = ["FcpptModel.Gen.Scalar"]
 HARNESS = {"src": "harness/c06.cpp"}
 TIE = ("TRANSLATION: lean/FcpptModel/Gen/Scalar.lean is regenerated from /repo's headers on every run by tools/cxx2lean.py "
@@ -280,6 +281,12 @@ def batches2(rng, tier):
         ops.append(f"range2 div_{t} {lo(t)} {hi(t)} -3 3" if t == "i16" else f"range2 div_{t} 0 {hi(t)} 0 6")
         ops.append(f"range2 div_{t} {lo(t)} {lo(t) + 5} {lo(t)} {hi(t)}")
         ops.append(f"range2 div_{t} {hi(t) - 5} {hi(t)} {lo(t)} {hi(t)}")
+    ops.append("range2 ceil_div_signed_i8 -128 127 -128 127")
+    ops.append(f"list2 ceil_div_signed_i16 {csv(lattice('i16'))} {csv(lattice('i16'))}")
+    ops.append("range2 ceil_div_signed_i16 -32768 32767 -3 3")
+    ops.append("range2 ceil_div_signed_i16 -32768 -32763 -32768 32767")
+    ops.append("range2 ceil_div_signed_i16 32762 32767 -32768 32767")
+    ops.append("range2 ceil_div_signed_i16 -300 300 -300 300")
     yield Batch("div-narrow", ops, exhaustive=True, note="all pairs of the 8-bit instantiations; 16-bit: lattice pairs, every dividend against the divisors around 0, every divisor against the extreme dividends")
     ops = []
     for l, r in DIV_MIXED:
@@ -341,6 +348,8 @@ def batches2(rng, tier):
             ops.append(f"aliasr {f}_{t} {lo(t)} {hi(t)}" if BITS[t] <= 16 else f"aliasl {f}_{t} {csv(lattice(t))}")
     for f in ("ceil_div_u32", "ceil_div_u64", "ceil_div_signed_i32", "ceil_div_signed_i64"):
         ops.append(f"aliasl {f} {csv(lattice(f.rsplit('_', 1)[1]))}")
+    ops.append("aliasr ceil_div_signed_i8 -128 127")
+    ops.append("aliasr ceil_div_signed_i16 -32768 32767")
     yield Batch("aliasing", ops, exhaustive=True, note="f(x, x) / clamp(x, x, x) with the same object bound to every reference parameter: all 8/16-bit values, lattice otherwise")
     if thorough:
         ops = []
